@@ -36,7 +36,7 @@ void apply_knobs(const Plan &p) {
 struct ExactBuf {
     uint8_t *p; size_t n;
     explicit ExactBuf(size_t n_) : n(n_) { p = (uint8_t *) malloc(n ? n : 1); }
-    ExactBuf(const std::vector<uint8_t> &v, size_t n_) : n(n_) { p = (uint8_t *) malloc(n ? n : 1); if (n) memcpy(p, v.data(), n); }
+    ExactBuf(const std::vector<uint8_t> &v, size_t n_) : n(n_) { p = (uint8_t *) malloc(n ? n : 1); if (n) { memset(p, 0, n); memcpy(p, v.data(), std::min(n, v.size())); } }
     ~ExactBuf() { free(p); }
 };
 
@@ -48,6 +48,16 @@ static void def_strings(const Op &o, int count, DefStrings &d) {
 }
 
 static size_t fsr_bytes(int dtype, int64_t n) { return (size_t) (((uint64_t) n * dt_bits[dtype] + 7) / 8); }
+// The caller's sample buffers are sized for the type the signal was defined with.  In misuse programs an op may name
+// another type than any definition of its signal: the buffer then has room for the widest of them (the library cannot
+// know which type the caller had in mind, so only the defined type's size is "as documented").
+static const Plan *g_cur_plan = nullptr;
+static int widest_bits(int sig, int dtype) {
+    int bits = dt_bits[dtype];
+    if (g_cur_plan) for (auto &o : g_cur_plan->ops) if (o.kind == OP_SIG && o.sig == sig) bits = std::max(bits, dt_bits[o.dtype]);
+    return bits;
+}
+static size_t fsr_bytes_sig(int sig, int dtype, int64_t n) { return (size_t) (((uint64_t) n * (uint64_t) widest_bits(sig, dtype) + 7) / 8); }
 
 // dtype of a signal as defined earlier in the plan (for FSR ops the generator also stores it in the op)
 static int32_t do_sync_op(struct jls_wr_s *wr, const Op &o) {
@@ -69,7 +79,7 @@ static int32_t do_sync_op(struct jls_wr_s *wr, const Op &o) {
         }
         case OP_FSR: {
             std::vector<uint8_t> data; op_payload(o, data);
-            ExactBuf b(data, fsr_bytes(o.dtype, o.n));
+            ExactBuf b(data, fsr_bytes_sig(o.sig, o.dtype, o.n));
             return jls_wr_fsr(wr, (uint16_t) o.sig, o.a, b.p, (uint32_t) o.n);
         }
         case OP_OMIT: return jls_wr_fsr_omit_data(wr, (uint16_t) o.sig, (uint32_t) o.en);
@@ -106,6 +116,7 @@ static void rec_end(OpRec &r, int idx, int rc) {
 }
 
 WriterResult write_sync(const Plan &p, const std::string &path, bool log_writes) {
+    g_cur_plan = &p;
     WriterResult res; res.rec.resize(p.ops.size());
     apply_knobs(p);
     if (log_writes) { SFile *f = simfs::create(path); f->log_on = true; }
@@ -150,7 +161,7 @@ static int32_t do_twr_op(struct jls_twr_s *wr, const Op &o) {
         }
         case OP_FSR: {
             std::vector<uint8_t> data; op_payload(o, data);
-            ExactBuf b(data, fsr_bytes(o.dtype, o.n));
+            ExactBuf b(data, fsr_bytes_sig(o.sig, o.dtype, o.n));
             return jls_twr_fsr(wr, (uint16_t) o.sig, o.a, b.p, (uint32_t) o.n);
         }
         case OP_OMIT: return jls_twr_fsr_omit_data(wr, (uint16_t) o.sig, (uint32_t) o.en);
@@ -178,11 +189,12 @@ static int32_t do_twr_op(struct jls_twr_s *wr, const Op &o) {
 }
 
 WriterResult write_twr(const Plan &p, const std::string &path, bool log_writes) {
+    g_cur_plan = &p;
     WriterResult res; res.rec.resize(p.ops.size());
     apply_knobs(p);
     if (log_writes) { SFile *f = simfs::create(path); f->log_on = true; }
     mon::begin_run(p);
-    for (auto &o : p.ops) if (o.kind == OP_SIG && o.sig >= 0 && o.sig < 256) mon_fsr_bits[o.sig] = (uint32_t) dt_bits[o.dtype];
+    memset(mon_fsr_bits, 0, sizeof mon_fsr_bits);
     struct jls_twr_s *wr = nullptr;
     std::vector<int> prod_tasks;
     // leading definition ops are issued by producer 0 before the other producers start
@@ -312,7 +324,8 @@ void do_read(struct jls_rd_s *rd, const Op &o, CallRec &c) {
         case RD_FSR: case RD_FSR_F32: {
             int bits = dt_bits[o.dtype];
             uint64_t nn = o.n > 0 ? (uint64_t) o.n : 0;      // a non-positive length still gets a valid (minimal) buffer
-            size_t sz = bits < 8 ? (size_t) (1 + (nn * bits) / 8) : (size_t) (nn * bits / 8);
+            int wbits = widest_bits(o.sig, o.dtype);
+            size_t sz = wbits < 8 ? (size_t) (1 + (nn * wbits) / 8) : (size_t) (nn * wbits / 8);
             ExactBuf b(sz);
             memset(b.p, 0xEE, sz);
             if (o.kind == RD_FSR) c.rc = jls_rd_fsr(rd, (uint16_t) o.sig, o.a, b.p, o.n);
@@ -359,6 +372,7 @@ void do_read(struct jls_rd_s *rd, const Op &o, CallRec &c) {
 } // namespace
 
 RunStatus read_dump(const Plan &p, const std::string &path, Dump &d, bool with_cold) {
+    g_cur_plan = &p;
     apply_knobs(p);
     d.calls.assign(p.reads.size(), CallRec());
     d.cold.assign(p.reads.size(), CallRec());
@@ -377,6 +391,7 @@ RunStatus read_dump(const Plan &p, const std::string &path, Dump &d, bool with_c
             sim::event(EV_OP_RETURN, 1, (int64_t) i, d.calls[i].rc);
         }
         sim::set_cur_op(-1);
+        { struct jls_signal_def_s *sg = nullptr; uint16_t ns = 0; if (0 == jls_rd_signals(rd, &sg, &ns)) for (uint16_t i = 0; i < ns; ++i) d.sig_offset[sg[i].signal_id] = sg[i].sample_id_offset; }
         jls_rd_close(rd);
         if (with_cold) {
             for (size_t i = 0; i < p.reads.size(); ++i) {
